@@ -69,7 +69,10 @@ class FIBDemux(Device):
             self.ends[flow_id].put(packet)
         else:
             try:
-                assert self.outs
+                if not self.outs:
+                    # no output devices (outs is None or empty): every flow
+                    # is an unknown flow
+                    raise IndexError('FIBDemux has no output devices')
                 self.outs[self._fib[packet.flow_id]].put(packet)
             except (KeyError, IndexError, ValueError) as exc:
                 print("FIB Demux Error: " + str(exc))
